@@ -13,7 +13,7 @@ PARTIAL = {}
 TRUSTED = [
     'C12: the theorems are about the compiled model tree (Signs = a packet-matched node lists as signer a node matched by '
     'the key under the packet\'s bindings, every constraint on the way holding); that the tree denotes the source text is '
-    'C11 (compile_correct, proved for the compiler model given an injective merge key) and is covered here by the source-level oracle on every run',
+    'C11 (compile_correct_wf, proved for the compiler model) and is covered here by the source-level oracle on every run',
     'C12: hypotheses of check_iff: the model passed the loader, value edges deterministic (checked on every compiled model '
     'by the harness), user functions defined and not raising',
     'C12: lark (text -> AST) and the pretty-printer of the schema generator',
@@ -201,6 +201,6 @@ LEVEL_TEXT = ('Lean 4 theorems over a hand-written model of Checker.check (diges
               'digests are ignored. Tied to the code on every run by differential execution (all ordered pairs of generated names) '
               'and by a source-level oracle transcribed from docs/src/lvs/lvs.rst evaluated on the implementation.')
 LEVEL_NOTE = ('Proof is about the compiled model tree; model=code is sampled; that the tree denotes the source text is C11\'s '
-              'compile_correct (compiler model, injective merge key) and is covered here by the source-level oracle.')
+              'compile_correct_wf (compiler model) and is covered here by the source-level oracle.')
 TECHNIQUE = 'Lean 4 proof (simulation of the iterative search, soundness/completeness w.r.t. a path semantics) + model/implementation correspondence check + source-level oracle'
 DESIGN_REF = 'DESIGN.md section 7, C12; finding F9'
